@@ -147,3 +147,77 @@ func scalarOrVec(t ssa.Type) bool {
 //@   requires m.c != nil && instr != nil
 //@   ensures true
 //@   nosafety keep-pre
+
+// ---- C02 / C05: a memory access of the SSA is lowered to a move of exactly the access width (a wider move
+// reads or writes beyond the bytes the bounds check covered; a narrower one drops bits), with the extension
+// the SSA opcode names. The last instruction handed to insert is recorded in history ghosts.
+func insKind() instructionKind { return instructionKind(verif_ghost_int("H:insKind")) }
+func insU1() uint64            { return uint64(verif_ghost_int("H:insU1")) }
+
+func extBytes(e extMode) int {
+	switch e {
+	case extModeBL, extModeBQ:
+		return 1
+	case extModeWL, extModeWQ:
+		return 2
+	case extModeLQ:
+		return 4
+	}
+	return 0
+}
+
+// insBytes: the number of bytes the last inserted instruction moves between memory and a register.
+func insBytes() int {
+	switch insKind() {
+	case movRM:
+		return int(insU1())
+	case mov64MR:
+		return 8
+	case movzxRmR, movsxRmR:
+		return extBytes(extMode(insU1()))
+	case xmmMovRM, xmmUnaryRmR:
+		switch sseOpcode(insU1()) {
+		case sseOpcodeMovss:
+			return 4
+		case sseOpcodeMovsd:
+			return 8
+		case sseOpcodeMovdqu:
+			return 16
+		}
+	}
+	return 0
+}
+
+//@ prop C02 C05
+//@ func (m *machine) insert(i *instruction)
+//@   trusted
+//@   records H:insKind = int(i.kind)
+//@   records H:insU1 = int(i.u1)
+//@   modifies ghost("H:insKind"), ghost("H:insU1"), m.pendingInstructions, elems(m.pendingInstructions)
+
+//@ func (m *machine) lowerLoad(ptr ssa.Value, offset uint32, typ ssa.Type, dst regalloc.VReg)
+//@   requires scalarOrVec(typ)
+//@   ensures[loads-exactly-the-bytes-of-the-type] insBytes() == typeBytes(typ) && (insKind() == movzxRmR || insKind() == mov64MR || insKind() == xmmUnaryRmR)
+//@   nosafety
+
+//@ func (m *machine) lowerExtLoad(op ssa.Opcode, ptr ssa.Value, offset uint32, dst regalloc.VReg)
+//@   requires op == ssa.OpcodeUload8 || op == ssa.OpcodeUload16 || op == ssa.OpcodeUload32 || op == ssa.OpcodeSload8 || op == ssa.OpcodeSload16 || op == ssa.OpcodeSload32
+//@   ensures[loads-exactly-the-named-width] (op == ssa.OpcodeUload8 || op == ssa.OpcodeSload8 ==> insBytes() == 1) && (op == ssa.OpcodeUload16 || op == ssa.OpcodeSload16 ==> insBytes() == 2) && (op == ssa.OpcodeUload32 || op == ssa.OpcodeSload32 ==> insBytes() == 4)
+//@   ensures[extends-as-the-opcode-says] (op == ssa.OpcodeUload8 || op == ssa.OpcodeUload16 || op == ssa.OpcodeUload32 ==> insKind() == movzxRmR) && (op == ssa.OpcodeSload8 || op == ssa.OpcodeSload16 || op == ssa.OpcodeSload32 ==> insKind() == movsxRmR)
+//@   nosafety
+
+//@ func (m *machine) lowerStore(si *ssa.Instruction)
+//@   requires si != nil && m.c != nil
+//@   ensures[integer-store-of-exactly-the-stated-width] old(storedType(si)).IsInt() ==> insKind() == movRM && insBytes() == int(old(storeBits(si))/8)
+//@   ensures[float-or-vector-store-of-the-value-width] (old(storedType(si)) == ssa.TypeF32 || old(storedType(si)) == ssa.TypeF64 || old(storedType(si)) == ssa.TypeV128) ==> insKind() == xmmMovRM && insBytes() == typeBytes(old(storedType(si)))
+//@   nosafety
+
+func storedType(si *ssa.Instruction) ssa.Type {
+	v, _, _, _ := si.StoreData()
+	return v.Type()
+}
+
+func storeBits(si *ssa.Instruction) byte {
+	_, _, _, b := si.StoreData()
+	return b
+}
